@@ -13,7 +13,7 @@ use crate::{
     data::{Data, KVPair},
     errors::{Error, Result},
     freelist::TxFreelist,
-    node::{Leaf, Node, NodeData, NodeID},
+    node::{Branch, Leaf, Node, NodeData, NodeID},
     page::{Page, PageID, Pages},
     page_node::{PageNode, PageNodeID},
     BucketName,
@@ -911,6 +911,14 @@ impl<'b> InnerBucket<'b> {
                             let mut sibling = sibling.borrow_mut();
                             // Copy this node's data over to it's sibling
                             sibling.data.merge(&mut node.data);
+                            if index == 0 {
+                                // The right sibling now starts with this node's smaller keys, so
+                                // the key the parent files it under has to move down with them.
+                                sibling.original_key = Some(sibling.data.first_key());
+                                if let NodeData::Branches(branches) = &mut parent.data {
+                                    branches[index + 1] = Branch::from_node(&sibling);
+                                }
+                            }
                             if !node.children.is_empty() {
                                 // Move all children nodes over to that sibling too
                                 for child in node.children.iter() {
